@@ -210,8 +210,10 @@ pub fn install_panic_hook() {
             .map(|l| format!("{}:{}", l.file(), l.line()))
             .unwrap_or_default();
         LAST_PANIC.with(|p| *p.borrow_mut() = Some(format!("{msg} @ {loc}")));
-        if std::env::var("VERIF_SHOW_PANICS").is_ok() {
-            eprintln!("panic: {msg} @ {loc}");
+        // panics of the subject (absolute paths of the path dependency) are verdicts and stay quiet;
+        // a panic in the engine's own code (paths relative to this crate) is a machinery failure
+        if std::env::var("VERIF_SHOW_PANICS").is_ok() || loc.starts_with("src/") {
+            eprintln!("MACHINERY: panic in the engine: {msg} @ {loc}");
         }
     }));
 }
